@@ -37,6 +37,9 @@ LEVEL_NOTE = "Trusted: dna.IUPAC table; G-GEN builder; the generic class's own v
 WALL_CAP = {"quick": 240, "thorough": 2400}
 
 _DERIVED = None
+# signature-typed kit classes whose structure is NOT derived from the signature
+# (documented: "Type 234r parts have these sites reversed")
+HAND_WRITTEN = {"ytk.YTKPart234r"}
 
 
 def derived_parts():
@@ -48,12 +51,12 @@ def derived_parts():
         for name, cls in kits.kit_classes().items():
             if not issubclass(cls, AbstractPart):
                 continue
-            try:
-                derived = AbstractPart.structure.__func__(cls)
-            except Exception:  # noqa
+            sig = getattr(cls, "signature", None)
+            if not (isinstance(sig, tuple) and len(sig) == 2):
                 continue
-            if cls.structure() == derived:
-                out.append(name)
+            if name in HAND_WRITTEN:
+                continue
+            out.append(name)
         _DERIVED = sorted(out)
     return _DERIVED
 
